@@ -107,6 +107,48 @@ impl Prop for P {
                 }
             }
         }
+        // directed: shipped automata whose literal IS a key (or a prefix of keys), with bounds made
+        // from that literal: equal to it, its proper extensions, its prefixes - on both sides
+        let ndir = match tier { Tier::Quick => 120, Tier::Thorough => 1500, Tier::Wide => 400 };
+        for i in 0..ndir {
+            let n = rng.range(1, 12);
+            let ks = sort_dedup((0..n).map(|_| { let l = rng.range(0, 4); (0..l).map(|_| *rng.pick(&[b'a', b'b', b'z'])).collect() }).collect());
+            let k = rng.pick(&ks).clone();
+            let vals = value_pattern(rng.below(NPATTERNS as u64) as usize, ks.len(), rng);
+            let ops = map_ops(&with_values(&ks, &vals));
+            let lit = Exp::Str(k.clone());
+            let e = match i % 6 {
+                0 => lit,
+                1 => Exp::I(Box::new(lit), Box::new(Exp::Always)),
+                2 => Exp::U(Box::new(lit), Box::new(Exp::Str(rng.pick(&ks).clone()))),
+                3 => Exp::SW(Box::new(Exp::Str(k[..k.len().min(1)].to_vec()))),
+                4 => Exp::Sub(k.clone()),
+                _ => Exp::C(Box::new(lit)),
+            };
+            let mut near: Vec<Vec<u8>> = vec![k.clone()];
+            for x in [0u8, b'a', b'b', b'z', 255] {
+                let mut y = k.clone();
+                y.push(x);
+                near.push(y.clone());
+                y.push(b'a');
+                near.push(y);
+            }
+            for l in 0..k.len() {
+                near.push(k[..l].to_vec());
+            }
+            let mut rs: Vec<Vec<(u8, Vec<u8>)>> = vec![];
+            for b in &near {
+                for kind in 0..4u8 {
+                    rs.push(vec![(kind, b.clone())]);
+                }
+            }
+            for _ in 0..6 {
+                rs.push(vec![(rng.below(2) as u8, rng.pick(&near).clone()), (2 + rng.below(2) as u8, rng.pick(&near).clone())]);
+            }
+            stats.add("searches", rs.len() as u64);
+            stats.bump("directed_literal_is_key_bounds_around_literal");
+            cases.push(case(&ops, &e, i % 6 == 0 || i % 6 == 4, &rs));
+        }
         cases
     }
     fn nontrivial(&self, case: &str) -> bool {
